@@ -745,6 +745,22 @@ func ruleC15NulFirst(c *Ctx) {
 			return
 		}
 		n++
+		// the key ends at the FIRST LF of the record; everything after it, further LFs
+		// included, is the value
+		switch {
+		case strings.Contains(q, ".Last"):
+			c.violate("C15.nul-first", name+":lf-first", call.Pos(), name, "the key/value separator is searched from the end of the record ("+q+"): a value that contains a line feed would leak its first lines into the key")
+		case strings.HasSuffix(q, ".Split"):
+			c.violate("C15.nul-first", name+":lf-first", call.Pos(), name, "the record is split at every LF ("+q+"): a value that contains a line feed is cut off after its first line")
+		case strings.HasSuffix(q, ".SplitN"):
+			if k, ok := constInt(call.Call.Args[2]); !ok || k != 2 {
+				c.violate("C15.nul-first", name+":lf-first", call.Pos(), name, "the record is split into more than key and value: a value that contains a line feed is cut off")
+			} else {
+				c.hold("C15.nul-first", name+":lf-first", call.Pos(), "split into key and the whole rest")
+			}
+		default:
+			c.hold("C15.nul-first", name+":lf-first", call.Pos(), "the first LF ends the key; the rest is the value")
+		}
 		if c.nulBounded(call.Call.Args[0], 0) {
 			c.hold("C15.nul-first", name+":lf-search@"+c.lineKey(call), call.Pos(), "the LF (key/value separator) is searched inside one NUL-terminated record")
 		} else {
